@@ -1,3 +1,4 @@
+import QF.Props.Tie
 import QF.Core.Compare
 /-!
 # C03 — Sort returns a sorted permutation
@@ -35,5 +36,8 @@ theorem sort_by_orders (ks : List (Bool × Bool × Cmp.Key)) (ix : Sorter.Ix) :
     Sorter.Sorted (Cmp.lessKeys (Cmp.mkKeys ks)) (Sorter.sort (Cmp.lessKeys (Cmp.mkKeys ks)) ix) 0 (Array.size ix) ∧
       Array.Perm (Sorter.sort (Cmp.lessKeys (Cmp.mkKeys ks)) ix) ix :=
   Cmp.sort_by_orders ks ix
+
+/-- T1: the functions this property's mirror model follows have today the source text the model was written against. -/
+theorem tie : Tie.sameAll ["sort.Less", "sort.Sort", "sort.quickSort", "sort.doPivot", "sort.heapSort", "sort.siftDown", "sort.insertionSort", "sort.medianOfThree", "sort.maxDepth", "template.Comparable", "icolumn.Comparable", "fcolumn.Comparable", "bcolumn.Comparable", "scolumn.Comparable", "ecolumn.Comparable", "icolumn.Compare", "fcolumn.Compare", "bcolumn.Compare", "scolumn.Compare", "ecolumn.Compare", "qframe.Sort"] = true := by decide
 
 end QF.Props.C03
